@@ -209,5 +209,5 @@ def check_rule(ctx, case):
 
 
 FAMILIES = [
-    Family('rules', lambda ctx, case: check_rule(ctx, case), strategy=lambda tier: rule_case(), n=(3000, 400000)),
+    Family('rules', lambda ctx, case: check_rule(ctx, case), strategy=lambda tier: rule_case(), n=(12000, 400000)),
 ]
